@@ -2,7 +2,8 @@ from checks import both, EX
 
 CHECK = {
     'level': 'exploration',
-    'rule': ('closure generator over small scopes of cstl_rbtree (6-24 elements over 1-9 key values; unhinted insert, hinted '
+    'rule': ('[hints, big fills, re-entrancy] parent hints are also taken in batches and used after further finds and read-only calls (the oldest hint of the batch); red-black fills of 2^18+5000 (thorough 2^20+5000) descending / ascending / alternating / run-wise keys with the rules walker at every power of two and paths of more than 32 turns; traversal visitors call size/find/height and nested traversals on the same and another tree; comb-shaped deep trees; every second case runs with an allocator that refuses everything; '
+             'closure generator over small scopes of cstl_rbtree (6-24 elements over 1-9 key values; unhinted insert, hinted '
              'insert (key absent or present) and erase for every key applied in every reachable state, the state signature being '
              'shape + key + colour per node; one scope has two trees linking through different embedded nodes plus swap), plus seeded random histories with heavy duplication on pools of 8-4096 elements with ascending/'
              'descending/organ-pipe/random fills and alternating/ascending/descending/random drains. After every insert and '
@@ -14,7 +15,7 @@ CHECK = {
              'the repair loop); the counters erase.rb.* / insert.rb.* show the textbook cases driven. A case is distinct by '
              'the (shape, key, colour) signature and non-trivial when >= 2 elements are held; the same tree reached in two different closure scopes counts once per scope.'),
     'assumptions': ['comparison function is a total order on a small integer key',
-                    'hinted inserts only with the parent reported by an immediately preceding find of the same key (found or not), no mutation in between',
+                    'hinted inserts only with the parent reported by a find of the same key (found or not), no mutation in between (other finds and read-only calls may intervene)',
                     'a library call that consumes 10 s of CPU time (not wall clock) without returning is reported as a hang',
                     'the erase/insert case classification is computed from header-visible fields before the call and is evidence only, never an oracle',
                     'gcc 12 ASan/UBSan runtimes; dbg-asan keeps the library asserts live; rel-asan is the NDEBUG build as shipped'],
